@@ -368,7 +368,7 @@ def prove(assumptions, goal, timeout_s=10, opts=None, rounds=2):
     if not (opts or {}).get("no_slice"):
         assumptions = slice_assumptions(list(assumptions), goal)
     base = [a for a in assumptions] + [z3.Not(goal)]
-    inst = axioms.saturate(base, rounds=rounds, opts=opts)
+    inst = axioms.saturate(base, rounds=int((opts or {}).get("rounds", rounds)), opts=opts)
     formulas = base + inst
     res, model, backend, ms = check_formulas(formulas, timeout_s)
     if res == "unsat":
